@@ -315,6 +315,34 @@ func runC09(c *eng.Ctx) {
 		}
 	})
 
+	// ---- a registered series id is always completed (sequence advanced, postings written): nothing can fail in between ---------------
+	c.Rule("ERRFLOW", midT+".GenSeriesID{no failing exit after the id was registered}", func() {
+		f := c.Fn(midT + ".GenSeriesID")
+		goc := c.One(f, invokeOn(".series", "GetOrCreateValue"), "index.series.GetOrCreateValue(metricID, tagsHash, createFn)")
+		adv := c.Some(f, invokeOn(".sequenceCache", "Add"), "sequenceCache.Add(metricID, seriesID)")
+		n := 0
+		for _, b := range f.Blocks {
+			r, ok := b.Instrs[len(b.Instrs)-1].(*ssa.Return)
+			if !ok || b == f.Recover || len(r.Results) == 0 {
+				continue
+			}
+			if _, after := eng.Reaches(f, goc.Instr, []eng.Site{{Fn: f, Instr: r}}, nil); !after {
+				continue
+			}
+			ev := r.Results[len(r.Results)-1]
+			if eng.IsNilConst(ev) || eng.DependsOn(ev, func(x ssa.Value) bool { return x == goc.Instr.(ssa.Value) }) {
+				continue // success, or the dictionary's own error (nothing was registered then)
+			}
+			n++
+			c.Check(false, fmt.Sprintf("failing-exit-after-registration[%d]", n), r, f,
+				"once GetOrCreateValue has registered tags-hash -> id for a new series, GenSeriesID completes it (sequence cache advanced, metric postings and inverted index written): a limit or any other refusal has to happen INSIDE the create callback, where an error leaves nothing registered — otherwise the sequence is not advanced, the next new series receives the same id, and a repeated row of the refused series gets that shared id back with err == nil",
+				"returns "+p.Desc(ev)+" after the id was registered")
+		}
+		for i, a := range adv {
+			c.Check(eng.DominatedBy(f, a.Instr, []eng.Site{goc}, nil), fmt.Sprintf("sequence-advanced-after-registration[%d]", i), a.Instr, f, "the per-metric sequence follows the id just registered", "")
+		}
+	})
+
 	c.Rule("PROV", midT+".createSeriesID", func() {
 		f := c.Fn(midT + ".createSeriesID")
 		n := 0
